@@ -62,6 +62,8 @@ def history(ck):
     keys = ["f", "L", "K", "XX", "YY", "XY", "S12", "S2", "M2", "navg", "D"]
     for _ in range(n):
         r0, an0, info = attrs.make_result(ck.rng, which="full")
+        if ck.rng.random() < 0.6:
+            info["kw"]["scheduler"] = ck.rng.choice(["ltf", "lpsd"]); info["kw"]["olap"] = ck.rng.choice([0.5, "default", 0.3])
         data = np.vstack([info["x"], info["y"]]) if info["cross"] else info["x"]
         mk = lambda: SpectrumAnalyzer(data.copy(), info["fs"], **info["kw"])
         an = mk()
@@ -81,7 +83,9 @@ def history(ck):
                 bad = [k for k in keys if not same(a._data[k], b._data[k])]
                 what = "compute()"
             else:
-                L = ck.rng.choice([64, 100, info["N"] // 3]); f0 = ck.rng.uniform(2, L / 2 - 2) * info["fs"] / L
+                planned = [int(v) for v in np.unique(np.asarray(mk().plan()["L"])) if 8 <= int(v) <= info["N"]]
+                L = ck.rng.choice(planned) if planned and ck.rng.random() < 0.6 else ck.rng.choice([64, 100, info["N"] // 3])
+                f0 = ck.rng.uniform(2, L / 2 - 2) * info["fs"] / L
                 a, b = an.compute_single_bin(f0, L=L), mk().compute_single_bin(f0, L=L)
                 bad = [k for k in keys if not same(a._data[k], b._data[k])]
                 what = "compute_single_bin(%r, L=%d)" % (f0, L)
